@@ -292,7 +292,7 @@ def spec_dict(case, base=None, cwd=None):
 
 
 def needs_pgen(case):
-    if case.get("pgen_ops"):
+    if case.get("pgen_ops") or case.get("ptoken"):
         return True
     return any(isinstance(p["label"], list) or p.get("name") for p in case.get("params", []))
 
@@ -307,13 +307,48 @@ def _plain(o):
     return o
 
 
+def retoken(o, keys, src, dst):
+    """Rewrite the parameter tokens src(KEY) / src(KEY.label) / src(KEY.name) of
+    the given keys to dst(...), in every string of a value."""
+    if not keys:
+        return o
+    pat = re.compile(re.escape(src) + r"\((" + "|".join(re.escape(k) for k in keys) + r")(?=[.)])")
+    return _map_strings(o, lambda x: pat.sub(lambda m: dst + "(" + m.group(1), x))
+
+
+def set_ptoken(case, tok):
+    """The study written for a ParameterGenerator whose parameter token is
+    `tok`: EVERY parameter token of the texts (steps, labels, variables) is
+    written with it.  The model keeps "$": its input is the same study with the
+    tokens written back (a sound reduction: renaming the token character of
+    exactly the parameter tokens commutes with substitution as long as no
+    other text of the study spells a parameter token in either form)."""
+    keys = [p["key"] for p in case["params"]]
+    if not keys:
+        return
+    case["ptoken"] = tok
+    for st in case["steps"]:
+        st["description"] = retoken(st["description"], keys, "$", tok)
+        for k_ in list(st["run"]):
+            v_ = st["run"][k_]
+            if k_ not in ("cmd", "restart", "pre", "post", "depends") and isinstance(v_, str) \
+                    and retoken(v_, keys, "$", tok) != v_:
+                # the schema admits only "$(NAME)" in resource keys: no parameter token there
+                st["run"][k_] = {"walltime": "00:10:00", "reservation": "debug"}.get(k_, 1)
+        st["run"] = retoken(st["run"], keys, "$", tok)
+    # environment values keep "$": whether a value is a label depends on the "$"
+    # in it, so they do not refer to parameters in these cases
+    case["labels"] = retoken(case["labels"], keys, "$", "lit")
+    case["variables"] = retoken(case["variables"], keys, "$", "lit")
+
+
 def build_pgen(case):
     """The ParameterGenerator of a case that is built through the API.  With
     "pgen_ops" it is built in several steps -- [add, key, values, label, name]
     (stale first versions that are overridden later, keys added late) with
     reads in between ([read, kind]) -- and ends as the table case["params"]."""
     from maestrowf.datastructures.core import ParameterGenerator
-    parameters = ParameterGenerator()
+    parameters = ParameterGenerator(token=case["ptoken"]) if case.get("ptoken") else ParameterGenerator()
     ops = case.get("pgen_ops")
     if not ops:
         for p in case["params"]:
@@ -390,6 +425,11 @@ def run_impl(case, tag, hash_ws=False):
     if spec.batch:
         batch = dict(spec.batch)
         batch.setdefault("type", "local")
+    if case.get("ptoken"):
+        # the model's token is "$": write the parameter tokens back
+        keys = [p["key"] for p in case["params"]]
+        m_steps = retoken(m_steps, keys, case["ptoken"], "$")
+        env_ops = [[retoken(x, keys, case["ptoken"], "$") if isinstance(x, str) else x for x in op] for op in env_ops]
     model = {"root": root, "shell": batch.get("shell", "/bin/bash"), "env": env_ops,
              "params": m_params, "steps": m_steps, "order": None}
 
@@ -430,6 +470,10 @@ def run_impl(case, tag, hash_ws=False):
                     rscript = f.read()
             obs.append({"name": name, "description": rec.step.description,
                         "run": copy.deepcopy(rec.step.run), "script": script, "rscript": rscript})
+        if case.get("ptoken"):
+            # the renaming back, on the result: what is left of tok(KEY.xxx) (an
+            # undefined suffix is not substituted) reads $(KEY.xxx) in the model
+            obs = retoken(obs, [p["key"] for p in case["params"]], case["ptoken"], "$")
     except Exception as e:  # any staging failure is the observable "Raised"
         obs = "Raised"
         model["exc"] = "%s: %s" % (type(e).__name__, str(e)[:200])
@@ -1262,6 +1306,8 @@ def generate(rng, n_valid, n_exotic):
             c = gen_case(rng)
             if k % 6 == 1:
                 add_pgen_ops(rng, c)                  # "API sequence" stream
+                if k % 12 == 1:
+                    set_ptoken(c, ["@", "P", "%%", "#"][(k // 12) % 4])   # non-default parameter token
             elif k % 6 == 2:
                 if k % 12 == 2:
                     add_superset_child(rng, c)
@@ -1353,6 +1399,8 @@ def classify(ck, rows, errs, dist):
         dist["hyg:%s:%s" % (stream.split(":")[0], r.get("hyg"))] += 1
         for n_, f_ in (c.get("path_forms") or {}).items():
             dist["dep_path:%s:%s" % ("cli" if c.get("cli") else "api", f_)] += 1
+        if c.get("ptoken"):
+            dist["parameter_token:" + c["ptoken"]] += 1
         if c.get("odd_funnel"):
             dist["odd_name_funnel:%s" % ("unscanned" if c["odd_funnel"] in UNSCANNED_NAMES else "rewritten")] += 1
         if any(st["name"] in ODD_NAMES for st in c["steps"]):
@@ -1470,6 +1518,12 @@ def run(ck):
                       "one the hash_ws=False run records for the same instance -- implementation to implementation for "
                       "the directory names -- then C09_ok is evaluated as usual; a reference that is not exactly a "
                       "recorded workspace stays un-renamed and fails), "
+                      "the parameter token is the default \"$\": the T-code tie (translate/tcode_subst.py) reads "
+                      "ParameterGenerator.get_combinations' `Combination(self.token)` as `Combination()` under the "
+                      "hypothesis pg_token = \"$\"; generators with a non-default parameter token are compared through "
+                      "T-corr only: a share of the API-built cases uses the parameter token @ / P / %%%% / #, every "
+                      "parameter token of the study written with it, and the model gets the same study with those tokens "
+                      "written back to $ (a sound reduction: no other text spells a parameter token in either form), "
                       "step names with characters make_safe_path deletes (: + , = ~ ! %% ^ & | { } [ ] ; < > ? `), as "
                       "ordinary and funnel parents referenced through $(<step>.workspace) in cmd and restart by "
                       "un-parameterised and parameterised consumers -- the expected directory is the model's msp, i.e. "
